@@ -146,12 +146,29 @@ func (p *Program) callMods(u *Universe, c *ssa.CallCommon, caller *ssa.Function)
 			argModsU(u, a, mods)
 		}
 	}
+	closureMods := func(m map[string]bool) (map[string]bool, bool) {
+		for _, a := range c.Args {
+			if mc, ok := a.(*ssa.MakeClosure); ok {
+				cm, all := p.ModSet(u, mc.Fn.(*ssa.Function))
+				if all {
+					return m, true
+				}
+				for k := range cm {
+					m[k] = true
+				}
+			}
+		}
+		return m, false
+	}
 	if c.IsInvoke() {
 		if con := p.IfaceContract(c.Method); con != nil {
 			if m, all, ok := p.contractModsStatic(u, con); ok {
-				return m, all
+				if all || con.Pure {
+					return m, all
+				}
+				return closureMods(m)
 			}
-			return map[string]bool{TopKey: true}, false
+			return closureMods(map[string]bool{TopKey: true})
 		}
 		argBased(append([]ssa.Value{c.Value}, c.Args...))
 		return mods, false
